@@ -667,18 +667,40 @@ func (r *reporter) convertTags(tags map[string]string) []m3thrift.MetricTag {
 	key := cache.TagMapKey(tags)
 
 	mtags, ok := r.tagCache.Get(key)
-	if !ok {
-		mtags = r.resourcePool.getMetricTagSlice()
-		for k, v := range tags {
-			mtags = append(mtags, m3thrift.MetricTag{
-				Name:  r.stringInterner.Intern(k),
-				Value: r.stringInterner.Intern(v),
-			})
-		}
-		mtags = r.tagCache.Set(key, mtags)
+	if ok && sameTags(mtags, tags) {
+		return mtags
 	}
 
-	return mtags
+	fresh := r.resourcePool.getMetricTagSlice()
+	for k, v := range tags {
+		fresh = append(fresh, m3thrift.MetricTag{
+			Name:  r.stringInterner.Intern(k),
+			Value: r.stringInterner.Intern(v),
+		})
+	}
+
+	// n.b. The key is only a hash of the tags: when it is already taken by a
+	//      different tag set (e.g. {a: "b=c"} and {"a=b": "c"}), these tags
+	//      are used as they are and stay out of the cache.
+	if !ok {
+		if mtags = r.tagCache.Set(key, fresh); sameTags(mtags, tags) {
+			return mtags
+		}
+	}
+	return fresh
+}
+
+// sameTags tells whether mtags holds exactly the tags of the map.
+func sameTags(mtags []m3thrift.MetricTag, tags map[string]string) bool {
+	if len(mtags) != len(tags) {
+		return false
+	}
+	for _, t := range mtags {
+		if v, ok := tags[t.Name]; !ok || v != t.Value {
+			return false
+		}
+	}
+	return true
 }
 
 func (r *reporter) reportInternalMetrics() {
